@@ -1,9 +1,133 @@
-(* C11 — statements only. *)
+(* C11 — kinematic transformations are mutually inverse.  Statements only.
+   Model: Kin/Boost.v, Kin/Angles.v, Kin/Dalitz.v.  [vel_ok v] is eps < |v|^2 < 1 with eps = 1e-14 (angle.py
+   _epsilon): inside the code's guard 0 < |v|^2 <= eps the code drops the (gamma-1)/beta^2 term, so its boost
+   is not an exact Lorentz boost there (deviation <= |v|^3 |p| / 2); v = 0 is covered by C11_boost_zero. *)
 From Coq Require Import Reals List Lra.
-From TFV Require Import Base.RBase Kin.Boost Kin.Boost_proofs.
+From TFV Require Import Base.RBase Kin.Boost Kin.Boost_proofs Kin.Angles Kin.Angles_proofs Kin.Dalitz Kin.Dalitz_proofs.
 Import ListNotations.
 Open Scope R_scope.
 
+(* ---- boosts *)
 Theorem C11_boost_inverse : forall p v, vel_ok v -> boost (boost p v) (neg3 v) = p.
 Proof. exact boost_inverse. Qed.
 Print Assumptions C11_boost_inverse.
+
+Theorem C11_boost_zero : forall p, boost p zero3 = p.
+Proof. exact boost_zero. Qed.
+Print Assumptions C11_boost_zero.
+
+Theorem C11_mink_boost : forall p q v, vel_ok v -> mink (boost p v) (boost q v) = mink p q.
+Proof. exact mink_boost. Qed.
+Print Assumptions C11_mink_boost.
+
+Theorem C11_mass_boost : forall p v, vel_ok v -> mass (boost p v) = mass p.
+Proof. exact mass_boost. Qed.
+Print Assumptions C11_mass_boost.
+
+Theorem C11_mink_rot : forall R_ p q, orthogonal R_ -> mink (rot4 R_ p) (rot4 R_ q) = mink p q.
+Proof. exact mink_rot. Qed.
+Print Assumptions C11_mink_rot.
+
+Theorem C11_mass_rot : forall R_ p, orthogonal R_ -> mass (rot4 R_ p) = mass p.
+Proof. exact mass_rot. Qed.
+Print Assumptions C11_mass_rot.
+
+Theorem C11_rest_vector_of_self : forall p, timelike p -> eps < norm2_3 (boost_vector p) ->
+  rest_vector p p = V4 (mass p) 0 0 0.
+Proof. exact rest_vector_of_self. Qed.
+Print Assumptions C11_rest_vector_of_self.
+
+Theorem C11_rest_vector_of_self_at_rest : forall m, 0 < m ->
+  rest_vector (V4 m 0 0 0) (V4 m 0 0 0) = V4 (mass (V4 m 0 0 0)) 0 0 0.
+Proof. exact rest_vector_of_self_at_rest. Qed.
+Print Assumptions C11_rest_vector_of_self_at_rest.
+
+Theorem C11_rest_vector_inverts_boost : forall p q, vel_ok (boost_vector p) ->
+  rest_vector p (boost q (boost_vector p)) = q /\ boost (rest_vector p q) (boost_vector p) = q.
+Proof. intros p q H. split; [exact (boost_rest_vector p q H)|exact (rest_vector_boost p q H)]. Qed.
+Print Assumptions C11_rest_vector_inverts_boost.
+
+(* no hypotheses: the matrix and the vector boost share gamma and the guarded gamma2 *)
+Theorem C11_boost_matrix_agrees : forall p q, mat4_vec (boost_matrix p) q = boost q (boost_vector p).
+Proof. exact boost_matrix_agrees. Qed.
+Print Assumptions C11_boost_matrix_agrees.
+
+(* ---- one decay vertex: for a right-handed orthonormal frame F = (x,y,z), z axis of any length k handed down
+   by the extractor, break-up momentum q, -1 < cos(theta) < 1 and any phi: extracting from the forward
+   momentum returns (cos theta, cos phi, sin phi), and the extractor's next x axis is the generator's x'. *)
+Theorem C11_vertex_roundtrip : forall F k q c phi,
+  rotation F -> 0 < k -> 0 < q -> -1 < c < 1 -> eps <= k -> eps <= k * q * sqrt (1 - c * c) ->
+  let h := hel_extract (scale3 k (c3 F)) (c1 F) (fwd_p3 F q c phi) in
+  cosb h = c /\ cosa h = cos phi /\ sina h = sin phi /\ xnext h = c1 (next_frame1 F q c phi).
+Proof.
+  intros F k q c phi HF Hk Hq Hc Gk Gkqs. cbv zeta.
+  destruct (sin_theta_facts c Hc) as [Hs0 Hs].
+  replace (scale3 k (c3 F)) with (mat3_vec F (scale3 k ez))
+    by (apply vec3_eq; unfold mat3_vec, add3, scale3, ez; cbn [vx vy vz]; ring).
+  rewrite <- (mat3_vec_ex F), (fwd_p3_loc F q c phi), (next_frame1_loc F q c phi HF Hq Hc).
+  rewrite (vertex_extract1 F k q c _ (cos phi) (sin phi) HF Hk Hq Hs (cos_sin_1 phi) Gk Gkqs).
+  cbn [cosb cosa sina xnext c1]. repeat split; reflexivity.
+Qed.
+Print Assumptions C11_vertex_roundtrip.
+
+(* axes convention for the second daughter (momentum -p): same next x axis, flipped y and z *)
+Theorem C11_axes_agree_second : forall F k q c phi,
+  rotation F -> 0 < k -> 0 < q -> -1 < c < 1 -> eps <= k -> eps <= k * q * sqrt (1 - c * c) ->
+  xnext (hel_extract (scale3 k (c3 F)) (c1 F) (neg3 (fwd_p3 F q c phi))) = c1 (next_frame2 F q c phi)
+  /\ rotation (next_frame1 F q c phi) /\ rotation (next_frame2 F q c phi).
+Proof.
+  intros F k q c phi HF Hk Hq Hc Gk Gkqs.
+  destruct (sin_theta_facts c Hc) as [Hs0 Hs].
+  split; [|split; [apply next_frame1_rotation|apply next_frame2_rotation]; assumption].
+  replace (scale3 k (c3 F)) with (mat3_vec F (scale3 k ez))
+    by (apply vec3_eq; unfold mat3_vec, add3, scale3, ez; cbn [vx vy vz]; ring).
+  rewrite <- (mat3_vec_ex F), (fwd_p3_loc F q c phi).
+  replace (neg3 (mat3_vec F (scale3 q (loc_z c (sqrt (1 - c * c)) (cos phi) (sin phi)))))
+    with (mat3_vec F (scale3 q (neg3 (loc_z c (sqrt (1 - c * c)) (cos phi) (sin phi)))))
+    by (apply vec3_eq; unfold mat3_vec, add3, scale3, neg3; cbn [vx vy vz]; ring).
+  rewrite (vertex_extract2_x F k q c _ (cos phi) (sin phi) HF Hq Hs (cos_sin_1 phi) Gkqs).
+  unfold next_frame2, flip_frame. rewrite (next_frame1_loc F q c phi HF Hq Hc). reflexivity.
+Qed.
+Print Assumptions C11_axes_agree_second.
+
+(* two-body break-up: energies add up to the parent mass *)
+Theorem C11_breakup_energy : forall m0 m1 m2, 0 <= m1 -> 0 <= m2 -> m1 + m2 < m0 ->
+  let q := rel_p m0 m1 m2 in sqrt (m1 * m1 + q * q) + sqrt (m2 * m2 + q * q) = m0.
+Proof. exact breakup_energy_sum. Qed.
+Print Assumptions C11_breakup_energy.
+
+(* ---- whole cascades.  [tree_ok 1 t]: positive Q at every vertex, final masses >= 0, -1 < cos(theta) < 1,
+   and the eps conditions that keep every cross_unit / boost out of its _epsilon fallback.
+   For EVERY decay tree t (sequential or branching, any depth, any number of final particles):
+   cal_angle applied to the final-state momenta of build_data returns the (cos theta, cos phi, sin phi) of
+   every vertex and LorentzVector.M of every particle returns its input mass. *)
+Theorem C11_cascade_roundtrip : forall t, tree_ok 1 t ->
+  (cal_angle (forget (fwd_mtree id3 t)) = dtree_angles t) /\
+  (mtree_masses (infer (forget (fwd_mtree id3 t))) = dtree_masses t).
+Proof. exact cascade_roundtrip. Qed.
+Print Assumptions C11_cascade_roundtrip.
+
+(* the instance named in the design: A -> R C, R -> B D *)
+Theorem C11_cascade_roundtrip_3 : forall mA mR mB mC mD c0 phi0 c1_ phi1,
+  let t := DNode mA c0 phi0 (DNode mR c1_ phi1 (DLeaf mB) (DLeaf mD)) (DLeaf mC) in
+  tree_ok 1 t ->
+  cal_angle (forget (fwd_mtree id3 t)) = [(c0, cos phi0, sin phi0); (c1_, cos phi1, sin phi1)] /\
+  mtree_masses (infer (forget (fwd_mtree id3 t))) = [mA; mR; mB; mD; mC].
+Proof. intros. apply (cascade_roundtrip t). assumption. Qed.
+Print Assumptions C11_cascade_roundtrip_3.
+
+(* ---- Dalitz variables (m12, m23 are the squared invariant masses) *)
+Theorem C11_dalitz_reproduces : forall m12 m23 m0 m1 m2 m3, dalitz_physical m12 m23 m0 m1 m2 m3 ->
+  let p1 := dalitz_p1 m12 m23 m0 m1 m2 m3 in
+  let p2 := dalitz_p2 m12 m23 m0 m1 m2 m3 in
+  let p3 := dalitz_p3 m12 m23 m0 m1 m2 m3 in
+  mass2 (add4 p1 p2) = m12 /\ mass2 (add4 p2 p3) = m23 /\
+  mass2 p1 = m1 ^ 2 /\ mass2 p2 = m2 ^ 2 /\ mass2 p3 = m3 ^ 2 /\ add4 (add4 p1 p2) p3 = V4 m0 0 0 0.
+Proof. exact dalitz_reproduces. Qed.
+Print Assumptions C11_dalitz_reproduces.
+
+(* ---- non-vacuity *)
+Example C11_vel_ok_example : vel_ok (V3 (1/2) 0 0).
+Proof. unfold vel_ok, norm2_3, dot3, eps; cbn; lra. Qed.
+Example C11_rotation_example : rotation id3.
+Proof. exact rotation_id3. Qed.
